@@ -9,7 +9,7 @@ CONSTANTS
   Amounts = {1, 3, 10, 25}
   Pairs = 1
   WdAmounts = {10}
-  CfgIds = {2, 3}
+  CfgIds = {3, 13, 14}
   ScenIds = {1, 2}
   FixIds = {1, 2, 3}
   VaryPrices = FALSE
